@@ -133,7 +133,7 @@ def obligations(tier):
     obs = [BmcOb("C20.bmc.translator-validation", 1, 2, None, 120, kind="validate"), BmcOb("C20.bmc.reachability-witness", 2, 0, None, 120, kind="reach")]
     cfgs = [(1, 0, None), (1, 1, None), (1, 2, None), (2, 0, 2), (2, 0, None)]
     if tier == "thorough":
-        cfgs += [(2, 1, 2), (3, 0, 2)]  # measured: unsat in ~12 / ~18 min; (2,1,all), (2,2,<=2), (3,0,all) end in `unknown` after 25 min and are not claimed
+        cfgs += [(2, 1, 2)]  # measured: unsat in ~12-33 min. NOT claimed: (3,0,<=2) was unsat in 18 min for the class alone, but `unknown` after 50 min since the body of protect_via_deepcopy is part of the model; (2,1,all), (2,2,<=2), (3,0,all) end in `unknown` after 25 min
     for T, d, P in cfgs:
         obs.append(BmcOb(f"C20.bmc.t{T}.d{d}.{'all' if P is None else 'p' + str(P)}", T, d, P, 300 if tier == "quick" else 3000))
     return obs
